@@ -15,6 +15,7 @@ import (
 	"verifharness/internal/rcv"
 	"verifharness/internal/rep"
 	"verifharness/internal/sigs"
+	"verifharness/internal/sub"
 )
 
 var commands = map[string]func(args []string) *rep.Report{
@@ -26,6 +27,7 @@ var commands = map[string]func(args []string) *rep.Report{
 	"c17": c17.Run,
 	"c06": pc.Run,
 	"c07": pc.RunReaders,
+	"c08": sub.Run,
 	"c09": rcv.Run,
 }
 
